@@ -39,6 +39,7 @@ type GenCfg struct {
 	DupStores  bool
 	Rollbacks  bool
 	Prefix     string
+	Adversarial bool // store names / descriptions that mention the metadata field names, quotes, braces, unicode
 	Bulk       int // >0: bulk-load programs (ascending keys, Bulk adds per transaction) instead of random ones
 }
 
@@ -56,6 +57,10 @@ func GenProgram(r *rand.Rand, c GenCfg, id int) Program {
 		o := sopenv.StoreOpts{Name: fmt.Sprintf("%s%d_s%d", c.Prefix, id, i), Slot: c.Slots[r.Intn(len(c.Slots))],
 			Unique: !(c.DupStores && r.Intn(4) == 0), Placement: c.Placements[r.Intn(len(c.Placements))],
 			Balancing: r.Intn(3) == 0}
+		if c.Adversarial {
+			o.Name = advNames[(id+i)%len(advNames)]
+			o.Desc = advDescs[r.Intn(len(advDescs))]
+		}
 		p.Stores = append(p.Stores, o)
 	}
 	created := make([]bool, ns)
@@ -161,3 +166,6 @@ func genBulk(r *rand.Rand, c GenCfg, id int) Program {
 	p.Txns = append(p.Txns, TxnSpec{Mode: "r", Open: []int{0}, Ops: []OpSpec{{Op: "Count", Store: 0}, {Op: "Scan", Store: 0}}, End: "commit"})
 	return p
 }
+
+var advNames = []string{"count", "timestamp", "slot_length", "name", "is_unique", "registry_table", "cache_config", "count2", "Count", "c{ount}", "a,b", "x:1", "ünï", "description"}
+var advDescs = []string{"", "count", "\"count\": 5", "the \"count\":7,\"timestamp\":9 of it", "timestamp", "{\"timestamp\":1}", "a: b, c}", "\\\"count\\\":1", "ends with backslash \\", "多字节 \"count\"", "count\": 1, \"slot_length\": 2"}
